@@ -17,8 +17,13 @@ ENTRIES = {
          "ends in GD_E_RECURSE_LEVEL while shallower graphs never hit the limit (limit and guarded evaluators regenerated from the source); gd_getdata "
          "spends exactly one extra level per frame; the SIE read cursor never writes more than nelem elements for ANY record list (the pinned code is "
          "refuted with a 3-record witness, repaired by a fix: commit); the LINTERP index stays inside the table; the tokeniser output bound is proved "
-         "under C08. Tie: SIE and recursion models vs the ASan/UBSan build on generated mostly-malformed inputs; plus (validation, not proof) a "
-         "grammar+mutation fuzz of format files, LINTERP tables and data files of every encoding through every read-side call under ASan+UBSan+LSan."),
+         "under C08; the LZMA and bzip2 decode windows of lzma.c/bzip.c over an abstract stream with the codec as an oracle bound only by its documented "
+         "contract (decoder errors at any call included): reads copy one contiguous run of the stream never exceeding the caller's buffer, completed reads "
+         "deliver min(request, rest of stream), seeks land on min(target, end), file->pos follows the cursor after ANY outcome, every loop terminates, "
+         "write-mode padding writes exactly the missing zero bytes; every evaluator carrying the depth guard stops at the first error (regenerated facts). Tie: SIE and recursion models vs the ASan/UBSan build on generated mostly-malformed inputs; plus (validation, not proof) a "
+         "grammar+mutation fuzz of format files, LINTERP tables and data files of every encoding through every read-side call under ASan+UBSan+LSan; "
+         "the bzip2 window model is compared state by state with the CURRENT src/bzip.c compiled into the harness with BZ2_bzRead wrapped (every decoder answer, "
+         "also of corrupted files, is replayed as the model's oracle); the LZMA model with xz fields read through one handle with 64-byte buffers."),
    note=COMMON_NOTE + "Memory safety outside the modelled arithmetic is validated by sanitizer runs only; zlib/libbz2/liblzma trusted; allocation failures not exercised; "
         "arithmetic UB (signed overflow, shifts, float casts) is outside the property and not checked.",
    technique="Coq proof (structural recursion / loop invariants) + translator for limits + correspondence and sanitizer fuzz"),
@@ -27,11 +32,15 @@ ENTRIES = {
          "(2) cell_ok_sound: any accepted cell equals the C conversion from the true source type to the true destination type for every source bit "
          "pattern on which that conversion is defined, (3) that conversion is what the property says: integers wrap mod 2^N / representable unchanged, "
          "integer->float is Flocq round-to-nearest-even without overflow, float->integer is Ztrunc when in range, float->double exact, double->float "
-         "keeps representable values, real<->complex. The translator and the assumed C semantics are validated every run against the compiled "
-         "_GD_ConvertType on ~140k (quick) source values incl. all 8-bit, boundary and double-rounding witnesses."),
+         "keeps representable values, real<->complex, (4) CONST/CARRAY access: a second translator regenerates _GD_ConstType and the hand-written CONST "
+         "type change of _GD_Change (its conditional expressions evaluated with the flag values of getdata.h.in for all 104 declared-type pairs) and the same "
+         "decision procedure proves it equal to the C conversion between the storage types. The translators and the assumed C semantics are validated every run against the compiled "
+         "_GD_ConvertType on ~140k (quick) source values incl. all 8-bit, boundary and double-rounding witnesses, and through the public paths: "
+         "putdata/getdata across caller, field and return types, put/get_constant, gd_alter_const/gd_alter_carray, gd_add_const/gd_madd_const/gd_add_carray/gd_madd_carray, "
+         "and reads of derived fields in consecutive chunks with different return types."),
    note="Trusted: Coq kernel+vm_compute; stdlib real-number axioms reached through Flocq (sig_not_dec, sig_forall_dec, functional_extensionality_dep, classic); "
-        "translator tr_types.py; C conversion semantics of Convert.v (x86-64, gcc -O1); extraction (ExtrOcamlBasic) + OCaml driver; NaN payloads not compared; "
-        "callers of _GD_ConvertType (getdata/putdata/constant) are not modelled here.",
+        "translators tr_types.py and tr_constchange.py; C conversion semantics of Convert.v (x86-64, gcc -O1); extraction (ExtrOcamlBasic) + OCaml driver; NaN payloads not compared; "
+        "the callers of _GD_ConvertType in getdata.c/putdata.c are exercised by the correspondence streams, not modelled.",
    technique="Coq proof over translator-regenerated table + correspondence with compiled function"),
 }
 
